@@ -86,6 +86,18 @@ func (ec *ErrorCause) croppedJSON() []byte {
 		return nil
 	}
 
+	// JSON escaping can expand the cropped strings (up to six bytes per byte):
+	// keep halving them until the document is within the size limit
+	length := (MaxErrorCauseSizeBytes - paddingForFieldNames) / 2
+	for len(validErrorCauseJSON) > MaxErrorCauseSizeBytes && length > 8 {
+		length /= 2
+		compactor.cropStrings(length)
+		validErrorCauseJSON, err = json.Marshal(compactor.cause())
+		if err != nil {
+			return nil
+		}
+	}
+
 	return validErrorCauseJSON
 }
 
